@@ -32,3 +32,21 @@ package openapi3
 //@   modifies nothing
 //@   ensures result == rval(responses, "default")
 //@   tag C08 C10
+
+// Media type lookup precedence (C06, C08): exact string, then without parameters, then
+// type/*, then */*; an empty mime selects */*; a mime without '/' (after stripping
+// parameters) selects nothing beyond the first two steps.
+//@ spec stripParams(m string) string := contains(m, ";") ? m[:indexOf(m, ";")] : m
+//@ spec typePart(m string) string := m[:indexOf(m, "/")]
+//@ spec lookup(c Content, mime string) *MediaType :=
+//@     mime == "" ? c["*/*"]
+//@   : (c[mime] != nil ? c[mime]
+//@   : (c[stripParams(mime)] != nil ? c[stripParams(mime)]
+//@   : (!contains(stripParams(mime), "/") ? nil
+//@   : (c[typePart(stripParams(mime)) + "/*"] != nil ? c[typePart(stripParams(mime)) + "/*"]
+//@   : c["*/*"]))))
+
+//@ func (Content).Get
+//@   modifies nothing
+//@   ensures result == lookup(content, mime)
+//@   tag C06 C08 C10
